@@ -198,6 +198,65 @@ func main() {
 		ep, lp uint32
 		id     hash.Event
 	}
+	// ID histories: every sequence (length <= 4) of {SetEpoch(e), SetLamport(l), SetID(t), Build(t)} over a small
+	// alphabet on ONE mutable event; whenever an ID is produced (by SetID or Build) it must carry the epoch and
+	// Lamport time that are current at that call, and a built event must report the same values as its ID.
+	{
+		type hop struct {
+			k byte // 'e','l','i','b'
+			v uint32
+		}
+		var alpha []hop
+		for _, v := range []uint32{0, 3, 9, 0xfffffffe} {
+			alpha = append(alpha, hop{'e', v}, hop{'l', v})
+		}
+		alpha = append(alpha, hop{'i', 0}, hop{'i', 2}, hop{'b', 0}, hop{'b', 2})
+		var seqs [][]hop
+		var gen func(cur []hop)
+		gen = func(cur []hop) {
+			if len(cur) > 0 {
+				seqs = append(seqs, append([]hop{}, cur...))
+			}
+			if len(cur) == 4 {
+				return
+			}
+			for _, o := range alpha {
+				gen(append(cur, o))
+			}
+		}
+		gen(nil)
+		c.Parallel(len(seqs), func(i int) {
+			var me dag.MutableBaseEvent
+			var ep, lp uint32
+			for step, o := range seqs[i] {
+				switch o.k {
+				case 'e':
+					ep = o.v
+					me.SetEpoch(idx.Epoch(o.v))
+				case 'l':
+					lp = o.v
+					me.SetLamport(idx.Lamport(o.v))
+				case 'i', 'b':
+					var id hash.Event
+					if o.k == 'i' {
+						me.SetID(tails[o.v])
+						id = me.ID()
+					} else {
+						be := me.Build(tails[o.v])
+						id = be.ID()
+						if uint32(be.Epoch()) != ep || uint32(be.Lamport()) != lp {
+							c.Violation("id-history-fields", fmt.Sprint(seqs[i]), "built event reports epoch/lamport %d/%d, set to %d/%d (history %v, step %d)", be.Epoch(), be.Lamport(), ep, lp, seqs[i], step)
+						}
+					}
+					c.Count("evaluations", 1)
+					c.Count("id_history_ids_checked", 1)
+					if uint32(id.Epoch()) != ep || uint32(id.Lamport()) != lp || !bytes.Equal(id.Bytes()[8:], tails[o.v][:]) {
+						c.Violation("id-history-carry", fmt.Sprint(seqs[i]), "ID produced at step %d of history %v carries epoch/lamport %d/%d, the event has %d/%d at that moment", step, seqs[i], id.Epoch(), id.Lamport(), ep, lp)
+					}
+				}
+			}
+		})
+	}
 	c.Parallel(len(a32), func(i int) {
 		ep := a32[i]
 		prevs := []rec{}
